@@ -9,7 +9,7 @@ oracle: std::map twin inside the harness (independent of the Coq model)."""
 import os, re
 
 GEN = ['gen_p4base.json', 'gen_p4.json', 'gen_p4a.json', 'gen_one.json', 'gen_open2n2_ops.json', 'gen_openn1_ops.json', 'gen_unlimp.json', 'gen_limp1.json', 'gen_limp1t.json', 'gen_limp1f.json', 'gen_lim4.json', 'gen_limp.json', 'gen_open2n2w.json', 'gen_base.json', 'gen_policy.json', 'gen_limp4.json', 'gen_open2n2.json', 'gen_openn1.json', 'gen_open8.json',
-       'gen_hashset_grow.json', 'gen_limp1_ops.json']   # HashSet::Reserve / pvAddGrow size loops (config from props/C11)
+       'gen_hashset_grow.json', 'gen_limp1_ops.json', 'gen_hs_add.json', 'gen_hs_findin.json', 'gen_hs_find.json']   # HashSet::Reserve / pvAddGrow size loops (config from props/C11)
 
 ITEMS = {'a': (4, 4, 0), 'b': (8, 4, 0), 'c': (8, 8, 0), 'd': (24, 8, 0), 'e': (40, 8, 0), 'f': (16, 16, 0), 'g': (1, 1, 0),
          'h': (2, 2, 0), 'u': (4, 4, 0), 'z': (12, 4, 0), 't': (3, 1, 0), 'n': (8, 4, 1), 'm': (24, 8, 1), 'x': (8, 4, 2), 'y': (40, 8, 2)}
@@ -429,6 +429,44 @@ def build(ctx):
     return res
 
 
+def _regen_one(args):
+    """worker of regen_parallel (separate process: cxx2coq keeps per-translation globals)"""
+    import json, cxx2coq
+    pdir, cf, repo = args
+    cfg = json.load(open(os.path.join(pdir, cf)))
+    cfg.setdefault('includes', [os.path.join(repo, 'include')])
+    try:
+        return (cfg['name'], True, cxx2coq.translate_group(cfg, repo=repo))
+    except cxx2coq.TranslationError as e:
+        return (cfg['name'], False, str(e))
+
+
+def regen_parallel(ctx, cfg_files):
+    """the same as ctx.regen (same translator call per config, same files, same tie obligations, same stage), with the clang AST dumps
+    of the 27 configurations running in 8 processes instead of one after the other (cold-time); any trouble with the pool -> ctx.regen"""
+    import multiprocessing, hashlib
+    try:
+        with multiprocessing.get_context('fork').Pool(8) as pool:
+            results = pool.map(_regen_one, [(ctx.pdir, cf, ctx.repo) for cf in cfg_files])
+    except Exception:
+        return ctx.regen(cfg_files)
+    ok = True; details = []
+    for name, good, txt in results:
+        out = os.path.join(ctx.cdir, name + '.v')
+        if good:
+            old = open(out).read() if os.path.exists(out) else None
+            if old != txt:
+                open(out, 'w').write(txt)
+            ctx.tie_obligations.append({'name': 'translate ' + name, 'ok': True, 'sha256': hashlib.sha256(txt.encode()).hexdigest()[:16]})
+        else:
+            ok = False; details.append('%s: %s' % (name, txt))
+            if os.path.exists(out):
+                os.remove(out)      # a stale model must not keep the proofs green
+            ctx.tie_obligations.append({'name': 'translate ' + name, 'ok': False, 'error': txt[:500]})
+    ctx.stage('regen', ok, '\n'.join(details))
+    return ok
+
+
 def replay(ctx, rp):
     exes = build(ctx)
     if exes is None:
@@ -462,9 +500,15 @@ def run(ctx):
                         'short-hash filters / SSE2 byte match / pointer-state packing inside Bucket::Find are modelled by their contract (item with equal key is found in its bucket) and tied by correspondence only',
                         'CalcCapacity floating-point formulas are mirrored in integer arithmetic and compared for bucket counts 2^0..2^40, not proved',
                         'memory allocation does not fail (the bad_alloc fallback of pvAddGrow is not modelled); relocation failures are modelled by an arbitrary failure point']
-    ctx.regen(GEN)
+    # cold-time: the harness TUs (g++) are built while the translator and Coq run; nothing below depends on the order
+    import threading
+    box = {}
+    th = threading.Thread(target=lambda: box.__setitem__('exes', build(ctx)))
+    th.start()
+    regen_parallel(ctx, GEN)
     ctx.prove()
-    exes = build(ctx)
+    th.join()
+    exes = box.get('exes')
     if exes is None:
         return ctx.finish(rule=RULE)
     # ---- configuration audit: what each harness configuration REALLY instantiates (bucket class, sizes, categories, crew)
